@@ -280,7 +280,7 @@ pub fn property() -> Property {
     jobs.push(
         job(
             "VClock/random",
-            100_000,
+            300_000,
             1_000_000,
             || strat((rand_clock(), rand_clock(), rand_clock()).prop_map(|(a, b, c)| RandCase { a, b, c })),
             |t: &RandCase, st: &mut Stats| {
